@@ -1,23 +1,23 @@
-// Kani harnesses for C20, ndarray backend: child module of src/linalg/ndarray_bindings.rs (feature ndarray-bindings).
+// Kani harnesses for C20, nalgebra backend: child module of src/linalg/nalgebra_bindings.rs (feature nalgebra-bindings).
 //
 // Relational, bounded: the same logical matrix is built in DenseMatrix (the reference: its data-movement operations are
-// proved by the Verus units of C03) and in ndarray::Array2<f64> through the trait API (`zeros` + `set`); the operation is
+// proved by the Verus units of C03) and in nalgebra::DMatrix<f64> through the trait API (`zeros` + `set`); the operation is
 // applied to both through the generic BaseMatrix / BaseVector trait method; every cell is compared through `get`
 // (bit equality) and the shapes through `shape`.
 //
 // Every shape is FIXED per harness (macro instance). Values are symbolic f64 bit patterns that are only moved and compared;
 // where an operation does float arithmetic or ordering (negative, max, min, argmax, max_diff) each value is drawn from the
 // mixed-sign constant set {-2.0, -0.5, 0.0, 1.5, 3.0} by a symbolic selector.
-// `_tr` / `_rev` operands are built with the transposed shape and then transposed (see `Lay`), which gives the backend
-// operand a non-standard (column-major) memory layout while the logical matrix is the same on both sides.
+// `tr = true` operands are built with the transposed shape and passed through `BaseMatrix::transpose` on both sides
+// (nalgebra's transpose copies into standard column-major storage, so this is the same logical matrix reached another way).
 //
-// c20_nalgebra.rs is the same text with the backend types / names replaced; keep the two files in step.
+// GENERATED from c20_ndarray.rs (same harness text, backend types and names replaced); keep the two files in step.
 use super::*;
 use crate::linalg::naive::dense_matrix::DenseMatrix;
 
 type Dm = DenseMatrix<f64>;
-type Bk = ndarray::Array2<f64>;
-type BkV = ndarray::Array1<f64>;
+type Bk = nalgebra::DMatrix<f64>;
+type BkV = nalgebra::RowDVector<f64>;
 
 fn dense_of(r: usize, c: usize, vals: &[f64]) -> Dm {
     DenseMatrix::from_array(r, c, vals)
@@ -34,12 +34,9 @@ fn backend_of(r: usize, c: usize, vals: &[f64]) -> Bk {
 }
 
 /// Layout of a harness operand.
-/// Std: built r x c through zeros + set (the backend's standard layout).
+/// Std: built r x c through zeros + set.
 /// Tr:  built c x r, then `BaseMatrix::transpose` on both sides ("after a transpose" in the words of the property).
-/// Rev: built c x r, then the backend's own axis reversal (`reversed_axes`, no copy): the same dimensions, strides and
-///      element order as the result of the binding's `transpose` (which is `clone().reversed_axes()`, checked by the
-///      transpose harnesses), but without the pointer that ndarray's `clone` re-derives through pointer-to-integer
-///      arithmetic, which CBMC cannot constant-propagate (get_col_as_vec on a `Tr` operand exhausts 20 GB).
+/// Rev: unused for nalgebra (an owned DMatrix has one storage order; only the sibling module c20_nd uses it).
 #[allow(dead_code)]
 #[derive(Clone, Copy, PartialEq)]
 enum Lay {
@@ -49,7 +46,7 @@ enum Lay {
 }
 
 fn backend_reversed(m: Bk) -> Bk {
-    m.reversed_axes()
+    BaseMatrix::transpose(&m)
 }
 
 /// The same logical r x c matrix in both representations; `vals` has r*c entries.
@@ -120,27 +117,26 @@ macro_rules! h_to_row_vector {
             let b_before = b.clone();
             let dv = BaseMatrix::to_row_vector(d);
             let bv: BkV = BaseMatrix::to_row_vector(b);
-            assert!(BaseVector::len(&bv) == R * C, "ndarray to_row_vector: length is nrows * ncols");
+            assert!(BaseVector::len(&bv) == R * C, "nalgebra to_row_vector: length is nrows * ncols");
             for k in 0..R * C {
                 assert!(
                     BaseVector::get(&bv, k).to_bits() == BaseMatrix::get(&b_before, k / C, k % C).to_bits(),
-                    "ndarray to_row_vector: logical row-major order (element k is cell (k / ncols, k % ncols)) regardless of memory layout"
+                    "nalgebra to_row_vector: logical row-major order (element k is cell (k / ncols, k % ncols)) regardless of memory layout"
                 );
             }
-            same_vector!(&dv, &bv, R * C, "ndarray to_row_vector: same length as DenseMatrix", "ndarray to_row_vector: same elements as DenseMatrix");
+            same_vector!(&dv, &bv, R * C, "nalgebra to_row_vector: same length as DenseMatrix", "nalgebra to_row_vector: same elements as DenseMatrix");
             kani::cover!(BaseVector::len(&bv) == R * C);
         }
     };
 }
-h_to_row_vector!(c20_nd_to_row_vector_1x1, 1, 1, Lay::Std, 6);
-h_to_row_vector!(c20_nd_to_row_vector_1x3, 1, 3, Lay::Std, 8);
-h_to_row_vector!(c20_nd_to_row_vector_3x1_std, 3, 1, Lay::Std, 8);
-h_to_row_vector!(c20_nd_to_row_vector_2x3_std, 2, 3, Lay::Std, 8);
-h_to_row_vector!(c20_nd_to_row_vector_3x1_tr, 3, 1, Lay::Tr, 8);
-h_to_row_vector!(c20_nd_to_row_vector_2x2_tr, 2, 2, Lay::Tr, 8);
-h_to_row_vector!(c20_nd_to_row_vector_2x3_tr, 2, 3, Lay::Tr, 8);
-h_to_row_vector!(c20_nd_to_row_vector_3x2_tr, 3, 2, Lay::Tr, 8);
-h_to_row_vector!(c20_nd_to_row_vector_2x3_rev, 2, 3, Lay::Rev, 8);
+h_to_row_vector!(c20_na_to_row_vector_1x1, 1, 1, Lay::Std, 6);
+h_to_row_vector!(c20_na_to_row_vector_1x3, 1, 3, Lay::Std, 8);
+h_to_row_vector!(c20_na_to_row_vector_3x1_std, 3, 1, Lay::Std, 8);
+h_to_row_vector!(c20_na_to_row_vector_2x3_std, 2, 3, Lay::Std, 8);
+h_to_row_vector!(c20_na_to_row_vector_3x1_tr, 3, 1, Lay::Tr, 8);
+h_to_row_vector!(c20_na_to_row_vector_2x2_tr, 2, 2, Lay::Tr, 8);
+h_to_row_vector!(c20_na_to_row_vector_2x3_tr, 2, 3, Lay::Tr, 8);
+h_to_row_vector!(c20_na_to_row_vector_3x2_tr, 3, 2, Lay::Tr, 8);
 
 // ---------------------------------------------------------------------------------------------- reshape
 macro_rules! h_reshape {
@@ -156,26 +152,25 @@ macro_rules! h_reshape {
             let (d, b) = operands(R, C, $tr, &vals);
             let dres = BaseMatrix::reshape(&d, R2, C2);
             let bres: Bk = BaseMatrix::reshape(&b, R2, C2);
-            assert!(BaseMatrix::shape(&bres) == (R2, C2), "ndarray reshape: result has the requested shape");
+            assert!(BaseMatrix::shape(&bres) == (R2, C2), "nalgebra reshape: result has the requested shape");
             for k in 0..R * C {
                 assert!(
                     BaseMatrix::get(&bres, k / C2, k % C2).to_bits() == BaseMatrix::get(&b, k / C, k % C).to_bits(),
-                    "ndarray reshape: logical row-major order (k-th cell of the result is the k-th cell of the operand) regardless of memory layout"
+                    "nalgebra reshape: logical row-major order (k-th cell of the result is the k-th cell of the operand) regardless of memory layout"
                 );
             }
-            same_matrix!(&dres, &bres, R2, C2, "ndarray reshape: same shape as DenseMatrix", "ndarray reshape: same cells as DenseMatrix");
+            same_matrix!(&dres, &bres, R2, C2, "nalgebra reshape: same shape as DenseMatrix", "nalgebra reshape: same cells as DenseMatrix");
             kani::cover!(BaseMatrix::shape(&bres) == (R2, C2));
         }
     };
 }
-h_reshape!(c20_nd_reshape_1x6_to_2x3, 1, 6, Lay::Std, 2, 3, 8);
-h_reshape!(c20_nd_reshape_2x3_to_3x2, 2, 3, Lay::Std, 3, 2, 8);
-h_reshape!(c20_nd_reshape_2x3_to_1x6, 2, 3, Lay::Std, 1, 6, 8);
-h_reshape!(c20_nd_reshape_2x2_tr_to_1x4, 2, 2, Lay::Tr, 1, 4, 8);
-h_reshape!(c20_nd_reshape_2x3_tr_to_3x2, 2, 3, Lay::Tr, 3, 2, 8);
-h_reshape!(c20_nd_reshape_2x3_tr_to_1x6, 2, 3, Lay::Tr, 1, 6, 8);
-h_reshape!(c20_nd_reshape_3x2_tr_to_2x3, 3, 2, Lay::Tr, 2, 3, 8);
-h_reshape!(c20_nd_reshape_2x3_rev_to_3x2, 2, 3, Lay::Rev, 3, 2, 8);
+h_reshape!(c20_na_reshape_1x6_to_2x3, 1, 6, Lay::Std, 2, 3, 8);
+h_reshape!(c20_na_reshape_2x3_to_3x2, 2, 3, Lay::Std, 3, 2, 8);
+h_reshape!(c20_na_reshape_2x3_to_1x6, 2, 3, Lay::Std, 1, 6, 8);
+h_reshape!(c20_na_reshape_2x2_tr_to_1x4, 2, 2, Lay::Tr, 1, 4, 8);
+h_reshape!(c20_na_reshape_2x3_tr_to_3x2, 2, 3, Lay::Tr, 3, 2, 8);
+h_reshape!(c20_na_reshape_2x3_tr_to_1x6, 2, 3, Lay::Tr, 1, 6, 8);
+h_reshape!(c20_na_reshape_3x2_tr_to_2x3, 3, 2, Lay::Tr, 2, 3, 8);
 
 // ---------------------------------------------------------------------------------------------- transpose
 macro_rules! h_transpose {
@@ -189,22 +184,22 @@ macro_rules! h_transpose {
             let (d, b) = operands(R, C, $tr, &vals);
             let dt = BaseMatrix::transpose(&d);
             let bt: Bk = BaseMatrix::transpose(&b);
-            assert!(BaseMatrix::shape(&bt) == (C, R), "ndarray transpose: shape is (ncols, nrows)");
+            assert!(BaseMatrix::shape(&bt) == (C, R), "nalgebra transpose: shape is (ncols, nrows)");
             for i in 0..R {
                 for j in 0..C {
-                    assert!(BaseMatrix::get(&bt, j, i).to_bits() == BaseMatrix::get(&b, i, j).to_bits(), "ndarray transpose: cell (j, i) of the result is cell (i, j) of the operand");
+                    assert!(BaseMatrix::get(&bt, j, i).to_bits() == BaseMatrix::get(&b, i, j).to_bits(), "nalgebra transpose: cell (j, i) of the result is cell (i, j) of the operand");
                 }
             }
-            same_matrix!(&dt, &bt, C, R, "ndarray transpose: same shape as DenseMatrix", "ndarray transpose: same cells as DenseMatrix");
+            same_matrix!(&dt, &bt, C, R, "nalgebra transpose: same shape as DenseMatrix", "nalgebra transpose: same cells as DenseMatrix");
             kani::cover!(BaseMatrix::shape(&bt) == (C, R));
         }
     };
 }
-h_transpose!(c20_nd_transpose_1x1, 1, 1, Lay::Std, 6);
-h_transpose!(c20_nd_transpose_1x3, 1, 3, Lay::Std, 8);
-h_transpose!(c20_nd_transpose_2x3_std, 2, 3, Lay::Std, 8);
-h_transpose!(c20_nd_transpose_3x2, 3, 2, Lay::Std, 8);
-h_transpose!(c20_nd_transpose_2x3_tr, 2, 3, Lay::Tr, 8);
+h_transpose!(c20_na_transpose_1x1, 1, 1, Lay::Std, 6);
+h_transpose!(c20_na_transpose_1x3, 1, 3, Lay::Std, 8);
+h_transpose!(c20_na_transpose_2x3_std, 2, 3, Lay::Std, 8);
+h_transpose!(c20_na_transpose_3x2, 3, 2, Lay::Std, 8);
+h_transpose!(c20_na_transpose_2x3_tr, 2, 3, Lay::Tr, 8);
 
 // ---------------------------------------------------------------------------------------------- from_row_vector
 macro_rules! h_from_row_vector {
@@ -218,16 +213,16 @@ macro_rules! h_from_row_vector {
             let bv: BkV = BaseVector::from_array(&vals);
             let d: Dm = BaseMatrix::from_row_vector(dv);
             let b: Bk = BaseMatrix::from_row_vector(bv);
-            same_matrix!(&d, &b, 1, N, "ndarray from_row_vector: 1 x len, as DenseMatrix", "ndarray from_row_vector: same cells as DenseMatrix");
+            same_matrix!(&d, &b, 1, N, "nalgebra from_row_vector: 1 x len, as DenseMatrix", "nalgebra from_row_vector: same cells as DenseMatrix");
             for k in 0..N {
-                assert!(BaseMatrix::get(&b, 0, k).to_bits() == vals[k].to_bits(), "ndarray from_row_vector: cell (0, k) is element k");
+                assert!(BaseMatrix::get(&b, 0, k).to_bits() == vals[k].to_bits(), "nalgebra from_row_vector: cell (0, k) is element k");
             }
             kani::cover!(BaseMatrix::shape(&b) == (1, N));
         }
     };
 }
-h_from_row_vector!(c20_nd_from_row_vector_1, 1, 6);
-h_from_row_vector!(c20_nd_from_row_vector_3, 3, 8);
+h_from_row_vector!(c20_na_from_row_vector_1, 1, 6);
+h_from_row_vector!(c20_na_from_row_vector_3, 3, 8);
 
 // ---------------------------------------------------------------------------------------------- row access
 macro_rules! h_rows {
@@ -243,29 +238,28 @@ macro_rules! h_rows {
             for i in 0..R {
                 let dr = BaseMatrix::get_row(&d, i);
                 let br: BkV = BaseMatrix::get_row(&b, i);
-                same_vector!(&dr, &br, C, "ndarray get_row: length ncols, as DenseMatrix", "ndarray get_row: same elements as DenseMatrix");
+                same_vector!(&dr, &br, C, "nalgebra get_row: length ncols, as DenseMatrix", "nalgebra get_row: same elements as DenseMatrix");
                 let dr = BaseMatrix::get_row_as_vec(&d, i);
                 let br: Vec<f64> = BaseMatrix::get_row_as_vec(&b, i);
-                same_vector!(&dr, &br, C, "ndarray get_row_as_vec: length ncols, as DenseMatrix", "ndarray get_row_as_vec: same elements as DenseMatrix");
+                same_vector!(&dr, &br, C, "nalgebra get_row_as_vec: length ncols, as DenseMatrix", "nalgebra get_row_as_vec: same elements as DenseMatrix");
                 // buffer one longer than the row: the tail must stay untouched on both sides
                 let mut dbuf = vec![filler; C + 1];
                 let mut bbuf = vec![filler; C + 1];
                 BaseMatrix::copy_row_as_vec(&d, i, &mut dbuf);
                 BaseMatrix::copy_row_as_vec(&b, i, &mut bbuf);
-                same_vector!(&dbuf, &bbuf, C + 1, "ndarray copy_row_as_vec: buffer length unchanged, as DenseMatrix", "ndarray copy_row_as_vec: same buffer contents as DenseMatrix");
+                same_vector!(&dbuf, &bbuf, C + 1, "nalgebra copy_row_as_vec: buffer length unchanged, as DenseMatrix", "nalgebra copy_row_as_vec: same buffer contents as DenseMatrix");
                 for j in 0..C {
-                    assert!(bbuf[j].to_bits() == BaseMatrix::get(&b, i, j).to_bits(), "ndarray copy_row_as_vec: element j is cell (row, j)");
+                    assert!(bbuf[j].to_bits() == BaseMatrix::get(&b, i, j).to_bits(), "nalgebra copy_row_as_vec: element j is cell (row, j)");
                 }
             }
             kani::cover!(BaseMatrix::shape(&b) == (R, C));
         }
     };
 }
-h_rows!(c20_nd_rows_1x1, 1, 1, Lay::Std, 6);
-h_rows!(c20_nd_rows_2x3_std, 2, 3, Lay::Std, 8);
-h_rows!(c20_nd_rows_2x3_tr, 2, 3, Lay::Tr, 8);
-h_rows!(c20_nd_rows_3x2_rev, 3, 2, Lay::Rev, 8);
-h_rows!(c20_nd_rows_2x3_rev, 2, 3, Lay::Rev, 8);
+h_rows!(c20_na_rows_1x1, 1, 1, Lay::Std, 6);
+h_rows!(c20_na_rows_2x3_std, 2, 3, Lay::Std, 8);
+h_rows!(c20_na_rows_2x3_tr, 2, 3, Lay::Tr, 8);
+h_rows!(c20_na_rows_3x2_tr, 3, 2, Lay::Tr, 8);
 
 // ---------------------------------------------------------------------------------------------- column access
 macro_rules! h_cols {
@@ -281,24 +275,24 @@ macro_rules! h_cols {
             for j in 0..C {
                 let dc = BaseMatrix::get_col_as_vec(&d, j);
                 let bc: Vec<f64> = BaseMatrix::get_col_as_vec(&b, j);
-                same_vector!(&dc, &bc, R, "ndarray get_col_as_vec: length nrows, as DenseMatrix", "ndarray get_col_as_vec: same elements as DenseMatrix");
+                same_vector!(&dc, &bc, R, "nalgebra get_col_as_vec: length nrows, as DenseMatrix", "nalgebra get_col_as_vec: same elements as DenseMatrix");
                 let mut dbuf = vec![filler; R + 1];
                 let mut bbuf = vec![filler; R + 1];
                 BaseMatrix::copy_col_as_vec(&d, j, &mut dbuf);
                 BaseMatrix::copy_col_as_vec(&b, j, &mut bbuf);
-                same_vector!(&dbuf, &bbuf, R + 1, "ndarray copy_col_as_vec: buffer length unchanged, as DenseMatrix", "ndarray copy_col_as_vec: same buffer contents as DenseMatrix");
+                same_vector!(&dbuf, &bbuf, R + 1, "nalgebra copy_col_as_vec: buffer length unchanged, as DenseMatrix", "nalgebra copy_col_as_vec: same buffer contents as DenseMatrix");
                 for i in 0..R {
-                    assert!(bbuf[i].to_bits() == BaseMatrix::get(&b, i, j).to_bits(), "ndarray copy_col_as_vec: element i is cell (i, col)");
+                    assert!(bbuf[i].to_bits() == BaseMatrix::get(&b, i, j).to_bits(), "nalgebra copy_col_as_vec: element i is cell (i, col)");
                 }
             }
             kani::cover!(BaseMatrix::shape(&b) == (R, C));
         }
     };
 }
-h_cols!(c20_nd_cols_1x1, 1, 1, Lay::Std, 6);
-h_cols!(c20_nd_cols_2x3_std, 2, 3, Lay::Std, 8);
-h_cols!(c20_nd_cols_2x3_rev, 2, 3, Lay::Rev, 8);
-h_cols!(c20_nd_cols_3x2_rev, 3, 2, Lay::Rev, 8);
+h_cols!(c20_na_cols_1x1, 1, 1, Lay::Std, 6);
+h_cols!(c20_na_cols_2x3_std, 2, 3, Lay::Std, 8);
+h_cols!(c20_na_cols_2x3_tr, 2, 3, Lay::Tr, 8);
+h_cols!(c20_na_cols_3x2_tr, 3, 2, Lay::Tr, 8);
 
 // ---------------------------------------------------------------------------------------------- slice
 macro_rules! h_slice {
@@ -312,20 +306,20 @@ macro_rules! h_slice {
             let (d, b) = operands(R, C, $tr, &vals);
             let ds = BaseMatrix::slice(&d, $r0..$r1, $c0..$c1);
             let bs: Bk = BaseMatrix::slice(&b, $r0..$r1, $c0..$c1);
-            same_matrix!(&ds, &bs, $r1 - $r0, $c1 - $c0, "ndarray slice: shape (rows.len(), cols.len()), as DenseMatrix", "ndarray slice: same cells as DenseMatrix");
+            same_matrix!(&ds, &bs, $r1 - $r0, $c1 - $c0, "nalgebra slice: shape (rows.len(), cols.len()), as DenseMatrix", "nalgebra slice: same cells as DenseMatrix");
             for i in $r0..$r1 {
                 for j in $c0..$c1 {
-                    assert!(BaseMatrix::get(&bs, i - $r0, j - $c0).to_bits() == BaseMatrix::get(&b, i, j).to_bits(), "ndarray slice: cell (i - r0, j - c0) of the result is cell (i, j) of the operand");
+                    assert!(BaseMatrix::get(&bs, i - $r0, j - $c0).to_bits() == BaseMatrix::get(&b, i, j).to_bits(), "nalgebra slice: cell (i - r0, j - c0) of the result is cell (i, j) of the operand");
                 }
             }
             kani::cover!(BaseMatrix::shape(&bs) == ($r1 - $r0, $c1 - $c0));
         }
     };
 }
-h_slice!(c20_nd_slice_2x3_all_by_1to3, 2, 3, Lay::Std, 0, 2, 1, 3, 8);
-h_slice!(c20_nd_slice_2x3_row1_by_0to2, 2, 3, Lay::Std, 1, 2, 0, 2, 8);
-h_slice!(c20_nd_slice_2x3_rev_all_by_1to3, 2, 3, Lay::Rev, 0, 2, 1, 3, 8);
-h_slice!(c20_nd_slice_3x2_rev_1to3_by_col1, 3, 2, Lay::Rev, 1, 3, 1, 2, 8);
+h_slice!(c20_na_slice_2x3_all_by_1to3, 2, 3, Lay::Std, 0, 2, 1, 3, 8);
+h_slice!(c20_na_slice_2x3_row1_by_0to2, 2, 3, Lay::Std, 1, 2, 0, 2, 8);
+h_slice!(c20_na_slice_2x3_tr_all_by_1to3, 2, 3, Lay::Tr, 0, 2, 1, 3, 8);
+h_slice!(c20_na_slice_3x2_tr_1to3_by_col1, 3, 2, Lay::Tr, 1, 3, 1, 2, 8);
 
 // ---------------------------------------------------------------------------------------------- h_stack / v_stack
 macro_rules! h_hstack {
@@ -342,24 +336,24 @@ macro_rules! h_hstack {
             let (d2, b2) = operands(R, C2, $tr2, &v2);
             let ds = BaseMatrix::h_stack(&d1, &d2);
             let bs: Bk = BaseMatrix::h_stack(&b1, &b2);
-            same_matrix!(&ds, &bs, R, C1 + C2, "ndarray h_stack: shape (nrows, ncols + other.ncols), as DenseMatrix", "ndarray h_stack: same cells as DenseMatrix");
+            same_matrix!(&ds, &bs, R, C1 + C2, "nalgebra h_stack: shape (nrows, ncols + other.ncols), as DenseMatrix", "nalgebra h_stack: same cells as DenseMatrix");
             for i in 0..R {
                 for j in 0..C1 {
-                    assert!(BaseMatrix::get(&bs, i, j).to_bits() == BaseMatrix::get(&b1, i, j).to_bits(), "ndarray h_stack: left block is self");
+                    assert!(BaseMatrix::get(&bs, i, j).to_bits() == BaseMatrix::get(&b1, i, j).to_bits(), "nalgebra h_stack: left block is self");
                 }
                 for j in 0..C2 {
-                    assert!(BaseMatrix::get(&bs, i, C1 + j).to_bits() == BaseMatrix::get(&b2, i, j).to_bits(), "ndarray h_stack: right block is other");
+                    assert!(BaseMatrix::get(&bs, i, C1 + j).to_bits() == BaseMatrix::get(&b2, i, j).to_bits(), "nalgebra h_stack: right block is other");
                 }
             }
             kani::cover!(BaseMatrix::shape(&bs) == (R, C1 + C2));
         }
     };
 }
-h_hstack!(c20_nd_h_stack_1x1_1x1, 1, 1, Lay::Std, 1, Lay::Std, 20);
-h_hstack!(c20_nd_h_stack_2x2_2x1, 2, 2, Lay::Std, 1, Lay::Std, 20);
-h_hstack!(c20_nd_h_stack_2x2_tr_2x1, 2, 2, Lay::Tr, 1, Lay::Std, 20);
-h_hstack!(c20_nd_h_stack_2x1_2x2_tr, 2, 1, Lay::Std, 2, Lay::Tr, 20);
-h_hstack!(c20_nd_h_stack_3x1_tr_3x1_tr, 3, 1, Lay::Tr, 1, Lay::Tr, 20);
+h_hstack!(c20_na_h_stack_1x1_1x1, 1, 1, Lay::Std, 1, Lay::Std, 20);
+h_hstack!(c20_na_h_stack_2x2_2x1, 2, 2, Lay::Std, 1, Lay::Std, 20);
+h_hstack!(c20_na_h_stack_2x2_tr_2x1, 2, 2, Lay::Tr, 1, Lay::Std, 20);
+h_hstack!(c20_na_h_stack_2x1_2x2_tr, 2, 1, Lay::Std, 2, Lay::Tr, 20);
+h_hstack!(c20_na_h_stack_3x1_tr_3x1_tr, 3, 1, Lay::Tr, 1, Lay::Tr, 20);
 
 macro_rules! h_vstack {
     ($name:ident, $c:expr, $r1:expr, $tr1:expr, $r2:expr, $tr2:expr, $unw:expr) => {
@@ -375,24 +369,24 @@ macro_rules! h_vstack {
             let (d2, b2) = operands(R2, C, $tr2, &v2);
             let ds = BaseMatrix::v_stack(&d1, &d2);
             let bs: Bk = BaseMatrix::v_stack(&b1, &b2);
-            same_matrix!(&ds, &bs, R1 + R2, C, "ndarray v_stack: shape (nrows + other.nrows, ncols), as DenseMatrix", "ndarray v_stack: same cells as DenseMatrix");
+            same_matrix!(&ds, &bs, R1 + R2, C, "nalgebra v_stack: shape (nrows + other.nrows, ncols), as DenseMatrix", "nalgebra v_stack: same cells as DenseMatrix");
             for j in 0..C {
                 for i in 0..R1 {
-                    assert!(BaseMatrix::get(&bs, i, j).to_bits() == BaseMatrix::get(&b1, i, j).to_bits(), "ndarray v_stack: upper block is self");
+                    assert!(BaseMatrix::get(&bs, i, j).to_bits() == BaseMatrix::get(&b1, i, j).to_bits(), "nalgebra v_stack: upper block is self");
                 }
                 for i in 0..R2 {
-                    assert!(BaseMatrix::get(&bs, R1 + i, j).to_bits() == BaseMatrix::get(&b2, i, j).to_bits(), "ndarray v_stack: lower block is other");
+                    assert!(BaseMatrix::get(&bs, R1 + i, j).to_bits() == BaseMatrix::get(&b2, i, j).to_bits(), "nalgebra v_stack: lower block is other");
                 }
             }
             kani::cover!(BaseMatrix::shape(&bs) == (R1 + R2, C));
         }
     };
 }
-h_vstack!(c20_nd_v_stack_1x1_1x1, 1, 1, Lay::Std, 1, Lay::Std, 20);
-h_vstack!(c20_nd_v_stack_2x2_1x2, 2, 2, Lay::Std, 1, Lay::Std, 20);
-h_vstack!(c20_nd_v_stack_2x2_tr_1x2, 2, 2, Lay::Tr, 1, Lay::Std, 20);
-h_vstack!(c20_nd_v_stack_1x2_2x2_tr, 2, 1, Lay::Std, 2, Lay::Tr, 20);
-h_vstack!(c20_nd_v_stack_1x3_tr_1x3_tr, 3, 1, Lay::Tr, 1, Lay::Tr, 20);
+h_vstack!(c20_na_v_stack_1x1_1x1, 1, 1, Lay::Std, 1, Lay::Std, 20);
+h_vstack!(c20_na_v_stack_2x2_1x2, 2, 2, Lay::Std, 1, Lay::Std, 20);
+h_vstack!(c20_na_v_stack_2x2_tr_1x2, 2, 2, Lay::Tr, 1, Lay::Std, 20);
+h_vstack!(c20_na_v_stack_1x2_2x2_tr, 2, 1, Lay::Std, 2, Lay::Tr, 20);
+h_vstack!(c20_na_v_stack_1x3_tr_1x3_tr, 3, 1, Lay::Tr, 1, Lay::Tr, 20);
 
 // ---------------------------------------------------------------------------------------------- take (default trait method over zeros/get/set)
 macro_rules! h_take {
@@ -407,21 +401,21 @@ macro_rules! h_take {
             let idx = $idx;
             let dt = BaseMatrix::take(&d, &idx, $axis);
             let bt: Bk = BaseMatrix::take(&b, &idx, $axis);
-            same_matrix!(&dt, &bt, $rr, $rc, "ndarray take: same shape as DenseMatrix", "ndarray take: same cells as DenseMatrix");
+            same_matrix!(&dt, &bt, $rr, $rc, "nalgebra take: same shape as DenseMatrix", "nalgebra take: same cells as DenseMatrix");
             for i in 0..$rr {
                 for j in 0..$rc {
                     let src = if $axis == 0 { BaseMatrix::get(&b, idx[i], j) } else { BaseMatrix::get(&b, i, idx[j]) };
-                    assert!(BaseMatrix::get(&bt, i, j).to_bits() == src.to_bits(), "ndarray take: row/column k of the result is row/column index[k] of the operand");
+                    assert!(BaseMatrix::get(&bt, i, j).to_bits() == src.to_bits(), "nalgebra take: row/column k of the result is row/column index[k] of the operand");
                 }
             }
             kani::cover!(BaseMatrix::shape(&bt) == ($rr, $rc));
         }
     };
 }
-h_take!(c20_nd_take_rows_2x3_std, 2, 3, Lay::Std, [1usize, 0, 1], 0, 3, 3, 8);
-h_take!(c20_nd_take_rows_2x3_tr, 2, 3, Lay::Tr, [1usize, 1], 0, 2, 3, 8);
-h_take!(c20_nd_take_cols_2x3_std, 2, 3, Lay::Std, [2usize, 0], 1, 2, 2, 8);
-h_take!(c20_nd_take_cols_2x3_tr, 2, 3, Lay::Tr, [2usize, 0, 2, 1], 1, 2, 4, 8);
+h_take!(c20_na_take_rows_2x3_std, 2, 3, Lay::Std, [1usize, 0, 1], 0, 3, 3, 8);
+h_take!(c20_na_take_rows_2x3_tr, 2, 3, Lay::Tr, [1usize, 1], 0, 2, 3, 8);
+h_take!(c20_na_take_cols_2x3_std, 2, 3, Lay::Std, [2usize, 0], 1, 2, 2, 8);
+h_take!(c20_na_take_cols_2x3_tr, 2, 3, Lay::Tr, [2usize, 0, 2, 1], 1, 2, 4, 8);
 
 // ---------------------------------------------------------------------------------------------- constructors
 macro_rules! h_eye {
@@ -432,19 +426,19 @@ macro_rules! h_eye {
             const N: usize = $n;
             let d: Dm = BaseMatrix::eye(N);
             let b: Bk = BaseMatrix::eye(N);
-            same_matrix!(&d, &b, N, N, "ndarray eye: size x size, as DenseMatrix", "ndarray eye: same cells as DenseMatrix");
+            same_matrix!(&d, &b, N, N, "nalgebra eye: size x size, as DenseMatrix", "nalgebra eye: same cells as DenseMatrix");
             for i in 0..N {
                 for j in 0..N {
-                    assert!(BaseMatrix::get(&b, i, j) == if i == j { 1.0 } else { 0.0 }, "ndarray eye: one on the diagonal, zero elsewhere");
+                    assert!(BaseMatrix::get(&b, i, j) == if i == j { 1.0 } else { 0.0 }, "nalgebra eye: one on the diagonal, zero elsewhere");
                 }
             }
             kani::cover!(BaseMatrix::shape(&b) == (N, N));
         }
     };
 }
-h_eye!(c20_nd_eye_1, 1, 6);
-h_eye!(c20_nd_eye_2, 2, 6);
-h_eye!(c20_nd_eye_3, 3, 8);
+h_eye!(c20_na_eye_1, 1, 6);
+h_eye!(c20_na_eye_2, 2, 6);
+h_eye!(c20_na_eye_3, 3, 8);
 
 macro_rules! h_fill {
     ($name:ident, $r:expr, $c:expr, $unw:expr) => {
@@ -456,20 +450,20 @@ macro_rules! h_fill {
             let x: f64 = kani::any();
             let d: Dm = BaseMatrix::fill(R, C, x);
             let b: Bk = BaseMatrix::fill(R, C, x);
-            same_matrix!(&d, &b, R, C, "ndarray fill: nrows x ncols, as DenseMatrix", "ndarray fill: every cell is the value, as DenseMatrix");
+            same_matrix!(&d, &b, R, C, "nalgebra fill: nrows x ncols, as DenseMatrix", "nalgebra fill: every cell is the value, as DenseMatrix");
             let d: Dm = BaseMatrix::zeros(R, C);
             let b: Bk = BaseMatrix::zeros(R, C);
-            same_matrix!(&d, &b, R, C, "ndarray zeros: nrows x ncols, as DenseMatrix", "ndarray zeros: every cell is +0.0, as DenseMatrix");
+            same_matrix!(&d, &b, R, C, "nalgebra zeros: nrows x ncols, as DenseMatrix", "nalgebra zeros: every cell is +0.0, as DenseMatrix");
             let d: Dm = BaseMatrix::ones(R, C);
             let b: Bk = BaseMatrix::ones(R, C);
-            same_matrix!(&d, &b, R, C, "ndarray ones: nrows x ncols, as DenseMatrix", "ndarray ones: every cell is 1.0, as DenseMatrix");
+            same_matrix!(&d, &b, R, C, "nalgebra ones: nrows x ncols, as DenseMatrix", "nalgebra ones: every cell is 1.0, as DenseMatrix");
             kani::cover!(BaseMatrix::shape(&b) == (R, C));
         }
     };
 }
-h_fill!(c20_nd_fill_zeros_ones_1x1, 1, 1, 6);
-h_fill!(c20_nd_fill_zeros_ones_2x3, 2, 3, 8);
-h_fill!(c20_nd_fill_zeros_ones_3x2, 3, 2, 8);
+h_fill!(c20_na_fill_zeros_ones_1x1, 1, 1, 6);
+h_fill!(c20_na_fill_zeros_ones_2x3, 2, 3, 8);
+h_fill!(c20_na_fill_zeros_ones_3x2, 3, 2, 8);
 
 // ---------------------------------------------------------------------------------------------- copy_from (equal shapes, any layout mix)
 macro_rules! h_copy_from {
@@ -485,21 +479,21 @@ macro_rules! h_copy_from {
             let (d2, b2) = operands(R, C, $trsrc, &v2);
             BaseMatrix::copy_from(&mut d1, &d2);
             BaseMatrix::copy_from(&mut b1, &b2);
-            same_matrix!(&d1, &b1, R, C, "ndarray copy_from: shape unchanged, as DenseMatrix", "ndarray copy_from: same cells as DenseMatrix");
-            same_matrix!(&d2, &b2, R, C, "ndarray copy_from: source shape unchanged", "ndarray copy_from: source cells unchanged");
+            same_matrix!(&d1, &b1, R, C, "nalgebra copy_from: shape unchanged, as DenseMatrix", "nalgebra copy_from: same cells as DenseMatrix");
+            same_matrix!(&d2, &b2, R, C, "nalgebra copy_from: source shape unchanged", "nalgebra copy_from: source cells unchanged");
             for i in 0..R {
                 for j in 0..C {
-                    assert!(BaseMatrix::get(&b1, i, j).to_bits() == BaseMatrix::get(&b2, i, j).to_bits(), "ndarray copy_from: every cell equals the source cell");
+                    assert!(BaseMatrix::get(&b1, i, j).to_bits() == BaseMatrix::get(&b2, i, j).to_bits(), "nalgebra copy_from: every cell equals the source cell");
                 }
             }
             kani::cover!(BaseMatrix::shape(&b1) == (R, C));
         }
     };
 }
-h_copy_from!(c20_nd_copy_from_1x1, 1, 1, Lay::Std, Lay::Std, 20);
-h_copy_from!(c20_nd_copy_from_2x3_std, 2, 3, Lay::Std, Lay::Std, 20);
-h_copy_from!(c20_nd_copy_from_2x3_src_tr, 2, 3, Lay::Std, Lay::Tr, 20);
-h_copy_from!(c20_nd_copy_from_2x3_dst_tr, 2, 3, Lay::Tr, Lay::Std, 20);
+h_copy_from!(c20_na_copy_from_1x1, 1, 1, Lay::Std, Lay::Std, 20);
+h_copy_from!(c20_na_copy_from_2x3_std, 2, 3, Lay::Std, Lay::Std, 20);
+h_copy_from!(c20_na_copy_from_2x3_src_tr, 2, 3, Lay::Std, Lay::Tr, 20);
+h_copy_from!(c20_na_copy_from_2x3_dst_tr, 2, 3, Lay::Tr, Lay::Std, 20);
 
 // ---------------------------------------------------------------------------------------------- negative / abs
 macro_rules! h_negative {
@@ -513,15 +507,15 @@ macro_rules! h_negative {
             let (d, b) = operands(R, C, $tr, &vals);
             let dn = BaseMatrix::negative(&d);
             let bn: Bk = BaseMatrix::negative(&b);
-            same_matrix!(&dn, &bn, R, C, "ndarray negative: shape unchanged, as DenseMatrix", "ndarray negative: same cells (bitwise, including -0.0) as DenseMatrix");
-            same_matrix!(&d, &b, R, C, "ndarray negative: operand shape unchanged", "ndarray negative: operand unchanged");
+            same_matrix!(&dn, &bn, R, C, "nalgebra negative: shape unchanged, as DenseMatrix", "nalgebra negative: same cells (bitwise, including -0.0) as DenseMatrix");
+            same_matrix!(&d, &b, R, C, "nalgebra negative: operand shape unchanged", "nalgebra negative: operand unchanged");
             kani::cover!(BaseMatrix::get(&bn, 0, 0) == 2.0);
         }
     };
 }
-h_negative!(c20_nd_negative_1x1, 1, 1, Lay::Std, 6);
-h_negative!(c20_nd_negative_2x3_std, 2, 3, Lay::Std, 8);
-h_negative!(c20_nd_negative_2x3_tr, 2, 3, Lay::Tr, 8);
+h_negative!(c20_na_negative_1x1, 1, 1, Lay::Std, 6);
+h_negative!(c20_na_negative_2x3_std, 2, 3, Lay::Std, 8);
+h_negative!(c20_na_negative_2x3_tr, 2, 3, Lay::Tr, 8);
 
 macro_rules! h_abs {
     ($name:ident, $r:expr, $c:expr, $tr:expr, $unw:expr) => {
@@ -534,15 +528,15 @@ macro_rules! h_abs {
             let (d, b) = operands(R, C, $tr, &vals);
             let da = BaseMatrix::abs(&d);
             let ba: Bk = BaseMatrix::abs(&b);
-            same_matrix!(&da, &ba, R, C, "ndarray abs: shape unchanged, as DenseMatrix", "ndarray abs: same cells as DenseMatrix");
-            same_matrix!(&d, &b, R, C, "ndarray abs: operand shape unchanged", "ndarray abs: operand unchanged");
+            same_matrix!(&da, &ba, R, C, "nalgebra abs: shape unchanged, as DenseMatrix", "nalgebra abs: same cells as DenseMatrix");
+            same_matrix!(&d, &b, R, C, "nalgebra abs: operand shape unchanged", "nalgebra abs: operand unchanged");
             kani::cover!(BaseMatrix::get(&b, 0, 0) < 0.0 && BaseMatrix::get(&ba, 0, 0) > 0.0);
         }
     };
 }
-h_abs!(c20_nd_abs_1x1, 1, 1, Lay::Std, 6);
-h_abs!(c20_nd_abs_2x3_std, 2, 3, Lay::Std, 8);
-h_abs!(c20_nd_abs_2x3_tr, 2, 3, Lay::Tr, 8);
+h_abs!(c20_na_abs_1x1, 1, 1, Lay::Std, 6);
+h_abs!(c20_na_abs_2x3_std, 2, 3, Lay::Std, 8);
+h_abs!(c20_na_abs_2x3_tr, 2, 3, Lay::Tr, 8);
 
 // ---------------------------------------------------------------------------------------------- order-based reductions on mixed-sign constants
 macro_rules! h_max_min {
@@ -556,20 +550,20 @@ macro_rules! h_max_min {
             let (d, b) = operands(R, C, $tr, &vals);
             let dmax = BaseMatrix::max(&d);
             let bmax = BaseMatrix::max(&b);
-            assert!(dmax.to_bits() == bmax.to_bits(), "ndarray max: same result as DenseMatrix whatever the signs of the data");
+            assert!(dmax.to_bits() == bmax.to_bits(), "nalgebra max: same result as DenseMatrix whatever the signs of the data");
             let dmin = BaseMatrix::min(&d);
             let bmin = BaseMatrix::min(&b);
-            assert!(dmin.to_bits() == bmin.to_bits(), "ndarray min: same result as DenseMatrix whatever the signs of the data");
+            assert!(dmin.to_bits() == bmin.to_bits(), "nalgebra min: same result as DenseMatrix whatever the signs of the data");
             kani::cover!(bmax < 0.0);
             kani::cover!(bmin > 0.0);
         }
     };
 }
-h_max_min!(c20_nd_max_min_1x1, 1, 1, Lay::Std, 6);
-h_max_min!(c20_nd_max_min_1x3, 1, 3, Lay::Std, 8);
-h_max_min!(c20_nd_max_min_2x2_tr, 2, 2, Lay::Tr, 8);
-h_max_min!(c20_nd_max_min_2x3_std, 2, 3, Lay::Std, 8);
-h_max_min!(c20_nd_max_min_2x3_tr, 2, 3, Lay::Tr, 8);
+h_max_min!(c20_na_max_min_1x1, 1, 1, Lay::Std, 6);
+h_max_min!(c20_na_max_min_1x3, 1, 3, Lay::Std, 8);
+h_max_min!(c20_na_max_min_2x2_tr, 2, 2, Lay::Tr, 8);
+h_max_min!(c20_na_max_min_2x3_std, 2, 3, Lay::Std, 8);
+h_max_min!(c20_na_max_min_2x3_tr, 2, 3, Lay::Tr, 8);
 
 macro_rules! h_argmax {
     ($name:ident, $r:expr, $c:expr, $tr:expr, $unw:expr) => {
@@ -582,18 +576,18 @@ macro_rules! h_argmax {
             let (d, b) = operands(R, C, $tr, &vals);
             let da = BaseMatrix::argmax(&d);
             let ba = BaseMatrix::argmax(&b);
-            assert!(da.len() == R && ba.len() == R, "ndarray argmax: one index per row, as DenseMatrix");
+            assert!(da.len() == R && ba.len() == R, "nalgebra argmax: one index per row, as DenseMatrix");
             for i in 0..R {
-                assert!(da[i] == ba[i], "ndarray argmax: same column index per row as DenseMatrix (first maximum on ties, any signs)");
+                assert!(da[i] == ba[i], "nalgebra argmax: same column index per row as DenseMatrix (first maximum on ties, any signs)");
             }
             kani::cover!(ba[R - 1] == C - 1);
         }
     };
 }
-h_argmax!(c20_nd_argmax_1x1, 1, 1, Lay::Std, 6);
-h_argmax!(c20_nd_argmax_2x3_std, 2, 3, Lay::Std, 8);
-h_argmax!(c20_nd_argmax_2x3_tr, 2, 3, Lay::Tr, 8);
-h_argmax!(c20_nd_argmax_3x2_tr, 3, 2, Lay::Tr, 8);
+h_argmax!(c20_na_argmax_1x1, 1, 1, Lay::Std, 6);
+h_argmax!(c20_na_argmax_2x3_std, 2, 3, Lay::Std, 8);
+h_argmax!(c20_na_argmax_2x3_tr, 2, 3, Lay::Tr, 8);
+h_argmax!(c20_na_argmax_3x2_tr, 3, 2, Lay::Tr, 8);
 
 macro_rules! h_max_diff {
     ($name:ident, $r:expr, $c:expr, $tr1:expr, $tr2:expr, $unw:expr) => {
@@ -608,14 +602,14 @@ macro_rules! h_max_diff {
             let (d2, b2) = operands(R, C, $tr2, &v2);
             let dm = BaseMatrix::max_diff(&d1, &d2);
             let bm = BaseMatrix::max_diff(&b1, &b2);
-            assert!(dm.to_bits() == bm.to_bits(), "ndarray max_diff: same result as DenseMatrix whatever the signs and layouts of the operands");
+            assert!(dm.to_bits() == bm.to_bits(), "nalgebra max_diff: same result as DenseMatrix whatever the signs and layouts of the operands");
             kani::cover!(bm == 5.0);
         }
     };
 }
-h_max_diff!(c20_nd_max_diff_1x1, 1, 1, Lay::Std, Lay::Std, 6);
-h_max_diff!(c20_nd_max_diff_1x3, 1, 3, Lay::Std, Lay::Std, 8);
-h_max_diff!(c20_nd_max_diff_2x2_one_tr, 2, 2, Lay::Std, Lay::Tr, 8);
+h_max_diff!(c20_na_max_diff_1x1, 1, 1, Lay::Std, Lay::Std, 6);
+h_max_diff!(c20_na_max_diff_1x3, 1, 3, Lay::Std, Lay::Std, 8);
+h_max_diff!(c20_na_max_diff_2x2_one_tr, 2, 2, Lay::Std, Lay::Tr, 8);
 
 // ---------------------------------------------------------------------------------------------- BaseVector of the backend's row-vector type
 macro_rules! h_vector {
@@ -628,38 +622,38 @@ macro_rules! h_vector {
             let x: f64 = kani::any();
             let mut dv: Vec<f64> = BaseVector::from_array(&vals);
             let mut bv: BkV = BaseVector::from_array(&vals);
-            same_vector!(&dv, &bv, N, "ndarray vector from_array: same length as Vec", "ndarray vector from_array/get: same elements as Vec");
+            same_vector!(&dv, &bv, N, "nalgebra vector from_array: same length as Vec", "nalgebra vector from_array/get: same elements as Vec");
             let p: usize = kani::any();
             kani::assume(p < N);
             BaseVector::set(&mut dv, p, x);
             BaseVector::set(&mut bv, p, x);
-            same_vector!(&dv, &bv, N, "ndarray vector set: length unchanged", "ndarray vector set: same elements as Vec");
+            same_vector!(&dv, &bv, N, "nalgebra vector set: length unchanged", "nalgebra vector set: same elements as Vec");
             let dtv = BaseVector::to_vec(&dv);
             let btv: Vec<f64> = BaseVector::to_vec(&bv);
-            same_vector!(&dtv, &btv, N, "ndarray vector to_vec: same length as Vec", "ndarray vector to_vec: same elements as Vec");
+            same_vector!(&dtv, &btv, N, "nalgebra vector to_vec: same length as Vec", "nalgebra vector to_vec: same elements as Vec");
             let idx = $idx;
             let dt = BaseVector::take(&dv, &idx);
             let bt: BkV = BaseVector::take(&bv, &idx);
-            same_vector!(&dt, &bt, $m, "ndarray vector take: one element per index, as Vec", "ndarray vector take: same elements as Vec");
+            same_vector!(&dt, &bt, $m, "nalgebra vector take: one element per index, as Vec", "nalgebra vector take: same elements as Vec");
             let dz: Vec<f64> = BaseVector::zeros(N);
             let bz: BkV = BaseVector::zeros(N);
-            same_vector!(&dz, &bz, N, "ndarray vector zeros: same length as Vec", "ndarray vector zeros: same elements as Vec");
+            same_vector!(&dz, &bz, N, "nalgebra vector zeros: same length as Vec", "nalgebra vector zeros: same elements as Vec");
             let mut do_: Vec<f64> = BaseVector::ones(N);
             let mut bo: BkV = BaseVector::ones(N);
-            same_vector!(&do_, &bo, N, "ndarray vector ones: same length as Vec", "ndarray vector ones: same elements as Vec");
+            same_vector!(&do_, &bo, N, "nalgebra vector ones: same length as Vec", "nalgebra vector ones: same elements as Vec");
             let df: Vec<f64> = BaseVector::fill(N, x);
             let bf: BkV = BaseVector::fill(N, x);
-            same_vector!(&df, &bf, N, "ndarray vector fill: same length as Vec", "ndarray vector fill: same elements as Vec");
+            same_vector!(&df, &bf, N, "nalgebra vector fill: same length as Vec", "nalgebra vector fill: same elements as Vec");
             BaseVector::copy_from(&mut do_, &dv);
             BaseVector::copy_from(&mut bo, &bv);
-            same_vector!(&do_, &bo, N, "ndarray vector copy_from: length unchanged", "ndarray vector copy_from: same elements as Vec");
-            assert!(BaseVector::is_empty(&bv) == BaseVector::is_empty(&dv), "ndarray vector is_empty: as Vec");
+            same_vector!(&do_, &bo, N, "nalgebra vector copy_from: length unchanged", "nalgebra vector copy_from: same elements as Vec");
+            assert!(BaseVector::is_empty(&bv) == BaseVector::is_empty(&dv), "nalgebra vector is_empty: as Vec");
             kani::cover!(BaseVector::len(&bo) == N);
         }
     };
 }
-h_vector!(c20_nd_vector_1, 1, [0usize, 0], 2, 20);
-h_vector!(c20_nd_vector_3, 3, [2usize, 0, 2, 1], 4, 20);
+h_vector!(c20_na_vector_1, 1, [0usize, 0], 2, 20);
+h_vector!(c20_na_vector_3, 3, [2usize, 0, 2, 1], 4, 20);
 
 // ---------------------------------------------------------------------------------------------- buffer shorter than the row / column
 // DenseMatrix::copy_row_as_vec / copy_col_as_vec fill as many elements as the buffer holds and do not panic; parity demands
@@ -678,21 +672,21 @@ macro_rules! h_copy_short_buffer {
             let mut bbuf = vec![filler; C - 1];
             BaseMatrix::copy_row_as_vec(&d, R - 1, &mut dbuf);
             BaseMatrix::copy_row_as_vec(&b, R - 1, &mut bbuf);
-            same_vector!(&dbuf, &bbuf, C - 1, "ndarray copy_row_as_vec into a shorter buffer: buffer length unchanged, as DenseMatrix", "ndarray copy_row_as_vec into a shorter buffer: same contents as DenseMatrix (which fills what fits and does not panic)");
+            same_vector!(&dbuf, &bbuf, C - 1, "nalgebra copy_row_as_vec into a shorter buffer: buffer length unchanged, as DenseMatrix", "nalgebra copy_row_as_vec into a shorter buffer: same contents as DenseMatrix (which fills what fits and does not panic)");
             let mut dbuf = vec![filler; R - 1];
             let mut bbuf = vec![filler; R - 1];
             BaseMatrix::copy_col_as_vec(&d, C - 1, &mut dbuf);
             BaseMatrix::copy_col_as_vec(&b, C - 1, &mut bbuf);
-            same_vector!(&dbuf, &bbuf, R - 1, "ndarray copy_col_as_vec into a shorter buffer: buffer length unchanged, as DenseMatrix", "ndarray copy_col_as_vec into a shorter buffer: same contents as DenseMatrix (which fills what fits and does not panic)");
+            same_vector!(&dbuf, &bbuf, R - 1, "nalgebra copy_col_as_vec into a shorter buffer: buffer length unchanged, as DenseMatrix", "nalgebra copy_col_as_vec into a shorter buffer: same contents as DenseMatrix (which fills what fits and does not panic)");
             kani::cover!(bbuf.len() == R - 1);
         }
     };
 }
-h_copy_short_buffer!(c20_nd_copy_short_buffer_2x3_std, 2, 3, Lay::Std, 8);
+h_copy_short_buffer!(c20_na_copy_short_buffer_2x3_std, 2, 3, Lay::Std, 8);
 
 // ---------------------------------------------------------------------------------------------- shape-mismatch parity
 // DenseMatrix rejects (panics on) operands of unequal shape in add_mut, h_stack, v_stack, reshape and copy_from. The
-// `c20_nd_ref_rejects_*` harnesses record that reference behaviour; the `c20_nd_rejects_*` harnesses demand the same of
+// `c20_na_ref_rejects_*` harnesses record that reference behaviour; the `c20_na_rejects_*` harnesses demand the same of
 // the backend. #[kani::should_panic]: the harness passes iff the call panics and nothing else goes wrong; if the backend
 // accepts the operands Kani reports "FAILED (encountered no panics, but at least one was expected)".
 // Values are constants (add_mut would otherwise add symbolic floats on a backend that broadcasts instead of panicking).
@@ -727,24 +721,58 @@ macro_rules! h_rejects {
         }
     };
 }
-h_rejects!(c20_nd_ref_rejects_add_mut_2x3_1x3, Dm, add_mut, 2, 3, 1, 3, 20);
-h_rejects!(c20_nd_ref_rejects_add_mut_2x3_3x2, Dm, add_mut, 2, 3, 3, 2, 20);
-h_rejects!(c20_nd_ref_rejects_add_mut_2x3_1x1, Dm, add_mut, 2, 3, 1, 1, 20);
-h_rejects!(c20_nd_ref_rejects_copy_from_2x3_1x3, Dm, copy_from, 2, 3, 1, 3, 20);
-h_rejects!(c20_nd_ref_rejects_copy_from_2x3_3x2, Dm, copy_from, 2, 3, 3, 2, 20);
-h_rejects!(c20_nd_ref_rejects_copy_from_2x3_1x1, Dm, copy_from, 2, 3, 1, 1, 20);
-h_rejects!(c20_nd_ref_rejects_h_stack_2x2_1x2, Dm, h_stack, 2, 2, 1, 2, 20);
-h_rejects!(c20_nd_ref_rejects_v_stack_2x2_2x1, Dm, v_stack, 2, 2, 2, 1, 20);
-h_rejects!(c20_nd_ref_rejects_reshape_2x3_to_2x2, Dm, reshape, 2, 3, 2, 2, 20);
-h_rejects!(c20_nd_ref_rejects_reshape_2x3_to_4x2, Dm, reshape, 2, 3, 4, 2, 20);
-h_rejects!(c20_nd_rejects_add_mut_2x3_1x3, Bk, add_mut, 2, 3, 1, 3, 20);
-h_rejects!(c20_nd_rejects_add_mut_2x3_3x2, Bk, add_mut, 2, 3, 3, 2, 20);
-h_rejects!(c20_nd_rejects_add_mut_2x3_1x1, Bk, add_mut, 2, 3, 1, 1, 20);
-h_rejects!(c20_nd_rejects_copy_from_2x3_1x3, Bk, copy_from, 2, 3, 1, 3, 20);
-h_rejects!(c20_nd_rejects_copy_from_2x3_3x2, Bk, copy_from, 2, 3, 3, 2, 20);
-h_rejects!(c20_nd_rejects_copy_from_2x3_1x1, Bk, copy_from, 2, 3, 1, 1, 20);
-h_rejects!(c20_nd_rejects_h_stack_2x2_1x2, Bk, h_stack, 2, 2, 1, 2, 20);
-h_rejects!(c20_nd_rejects_v_stack_2x2_2x1, Bk, v_stack, 2, 2, 2, 1, 20);
-h_rejects!(c20_nd_rejects_reshape_2x3_to_2x2, Bk, reshape, 2, 3, 2, 2, 20);
-h_rejects!(c20_nd_rejects_reshape_2x3_to_4x2, Bk, reshape, 2, 3, 4, 2, 20);
+h_rejects!(c20_na_ref_rejects_add_mut_2x3_1x3, Dm, add_mut, 2, 3, 1, 3, 20);
+h_rejects!(c20_na_ref_rejects_add_mut_2x3_3x2, Dm, add_mut, 2, 3, 3, 2, 20);
+h_rejects!(c20_na_ref_rejects_add_mut_2x3_1x1, Dm, add_mut, 2, 3, 1, 1, 20);
+h_rejects!(c20_na_ref_rejects_copy_from_2x3_1x3, Dm, copy_from, 2, 3, 1, 3, 20);
+h_rejects!(c20_na_ref_rejects_copy_from_2x3_3x2, Dm, copy_from, 2, 3, 3, 2, 20);
+h_rejects!(c20_na_ref_rejects_copy_from_2x3_1x1, Dm, copy_from, 2, 3, 1, 1, 20);
+h_rejects!(c20_na_ref_rejects_h_stack_2x2_1x2, Dm, h_stack, 2, 2, 1, 2, 20);
+h_rejects!(c20_na_ref_rejects_v_stack_2x2_2x1, Dm, v_stack, 2, 2, 2, 1, 20);
+h_rejects!(c20_na_ref_rejects_reshape_2x3_to_2x2, Dm, reshape, 2, 3, 2, 2, 20);
+h_rejects!(c20_na_ref_rejects_reshape_2x3_to_4x2, Dm, reshape, 2, 3, 4, 2, 20);
+h_rejects!(c20_na_rejects_add_mut_2x3_1x3, Bk, add_mut, 2, 3, 1, 3, 20);
+h_rejects!(c20_na_rejects_add_mut_2x3_3x2, Bk, add_mut, 2, 3, 3, 2, 20);
+h_rejects!(c20_na_rejects_add_mut_2x3_1x1, Bk, add_mut, 2, 3, 1, 1, 20);
+h_rejects!(c20_na_rejects_copy_from_2x3_1x3, Bk, copy_from, 2, 3, 1, 3, 20);
+h_rejects!(c20_na_rejects_copy_from_2x3_3x2, Bk, copy_from, 2, 3, 3, 2, 20);
+h_rejects!(c20_na_rejects_copy_from_2x3_1x1, Bk, copy_from, 2, 3, 1, 1, 20);
+h_rejects!(c20_na_rejects_h_stack_2x2_1x2, Bk, h_stack, 2, 2, 1, 2, 20);
+h_rejects!(c20_na_rejects_v_stack_2x2_2x1, Bk, v_stack, 2, 2, 2, 1, 20);
+h_rejects!(c20_na_rejects_reshape_2x3_to_2x2, Bk, reshape, 2, 3, 2, 2, 20);
+h_rejects!(c20_na_rejects_reshape_2x3_to_4x2, Bk, reshape, 2, 3, 4, 2, 20);
 
+
+// TEMP-EXPERIMENT
+#[kani::proof]
+#[kani::unwind(20)]
+fn c20_na_tmp_hstack_only() {
+    let x: f64 = kani::any();
+    let y: f64 = kani::any();
+    let a: Bk = BaseMatrix::fill(1, 1, x);
+    let b: Bk = BaseMatrix::fill(1, 1, y);
+    let s: Bk = BaseMatrix::h_stack(&a, &b);
+    assert!(BaseMatrix::get(&s, 0, 1).to_bits() == y.to_bits(), "tmp");
+    kani::cover!(BaseMatrix::shape(&s) == (1, 2));
+}
+#[kani::proof]
+#[kani::unwind(20)]
+fn c20_na_tmp_from_columns_array() {
+    let x: f64 = kani::any();
+    let y: f64 = kani::any();
+    let a: Bk = BaseMatrix::fill(1, 1, x);
+    let b: Bk = BaseMatrix::fill(1, 1, y);
+    let s: Bk = nalgebra::DMatrix::from_columns(&[a.column(0), b.column(0)]);
+    assert!(BaseMatrix::get(&s, 0, 1).to_bits() == y.to_bits(), "tmp");
+    kani::cover!(BaseMatrix::shape(&s) == (1, 2));
+}
+#[kani::proof]
+#[kani::unwind(20)]
+fn c20_na_tmp_vec_of_columns() {
+    let x: f64 = kani::any();
+    let a: Bk = BaseMatrix::fill(1, 1, x);
+    let mut columns = Vec::new();
+    columns.push(a.column(0));
+    assert!(columns[0][0].to_bits() == x.to_bits(), "tmp");
+    kani::cover!(columns.len() == 1);
+}
